@@ -23,7 +23,8 @@
 (*                     aggregate, streaming scan, eager filtered scan,     *)
 (*                     dictionary-group morsel scan, in that order)        *)
 (*   XQuery(p)         the same statements in a FRESH process of the same  *)
-(*                     mode (restart / another node): empty footer cache   *)
+(*                     mode (restart / another node): empty footer cache;  *)
+(*                     exhaustive runs take it as the last step only       *)
 (*   Build(p)          another process with QE_IPC_CACHE=1 runs            *)
 (*                     ensure_sidecar(p)                                   *)
 (*                                                                         *)
@@ -135,6 +136,7 @@ Query(p) ==
 
 XQuery(p) ==
   /\ WithX /\ n < MaxActions
+  /\ (Sim \/ n = MaxActions - 1)      \* earlier in a history it is Build(p) (mode 1) or a no-op for the state
   /\ LET e == Effect(mode, file[p], None, sidecar[p], None)
      IN /\ sidecar' = [sidecar EXCEPT ![p] = e.sc]
         /\ last' = e.res
